@@ -54,6 +54,9 @@ def concretise(req):
         else:
             fd['messages'] = [dict(name=f'Extra{i}', fields=[dict(name='x'), dict(name='item', type='Item')])]
         files.append(fd); names.append(fd['name'])
+    if req.get('extra') == 'svcfile':
+        # the services live in a target file of their own that declares no message and no enum
+        files.append(dict(name=f'{pdir}/lib_service.proto', package=pkg, messages=[], services=[])); names.append(files[-1]['name'])
     last = files[-1]
     for s in req['svcs']:
         methods = []
